@@ -1,12 +1,6 @@
-import QuiverModel.Core.Prelude
-import QuiverModel.Core.Text.Doc
+import QuiverModel.Driver.TextCommon
 /-
-qm_c17 — driver for M-Text (layout engine and string escaping). One request per line:
-
-  print <width> <doc>        →  s:<hex of UTF-8 of pretty::print(doc, width)>
-  flatten <doc>              →  s:<hex>
-  flatwidth <max> <doc>      →  none | some <n>
-  forcesbreak <doc>          →  true | false
+qm_c17 — driver for M-Text (layout engine and string escaping); requests in Driver/TextCommon.lean.
 
 <doc> ::= nil | line | softline | hardline | bp | (t <hex-utf8>) | (t) | (c <doc>*) | (n <k> <doc>)
         | (g <0|1> <doc>)   -- raw `Doc::Group(inner, should_break)`
@@ -14,62 +8,6 @@ qm_c17 — driver for M-Text (layout engine and string escaping). One request pe
         | (ib <broken> <flat>) | (ls <doc>)
 Anything else answers `bad-request`.
 -/
-open QM QM.Text
+open QM
 
-def hexToChars (h : String) : Option (List Char) :=
-  match parseHex h with
-  | none => none
-  | some bs =>
-    match String.fromUTF8? (ByteArray.mk bs.toArray) with
-    | some s => some s.toList
-    | none => none
-
-def charsToHex (cs : List Char) : String := toHex (String.ofList cs).toUTF8.toList
-
-partial def docOfSx : Sx → Option Doc
-  | .atom "nil" => some .nil
-  | .atom "line" => some .line
-  | .atom "softline" => some .softline
-  | .atom "hardline" => some .hardline
-  | .atom "bp" => some .breakParent
-  | .list [.atom "t"] => some (.text [])
-  | .list [.atom "t", .atom h] => (hexToChars h).map .text
-  | .list (.atom "c" :: ds) => (ds.mapM docOfSx).map .concat
-  | .list [.atom "n", k, d] =>
-    match k.asNat, docOfSx d with
-    | some k, some d => some (.nest k d)
-    | _, _ => none
-  | .list [.atom "g", .atom "0", d] => (docOfSx d).map (fun d => .group d false)
-  | .list [.atom "g", .atom "1", d] => (docOfSx d).map (fun d => .group d true)
-  | .list [.atom "gg", d] => (docOfSx d).map Doc.mkGroup
-  | .list [.atom "ib", b, f] =>
-    match docOfSx b, docOfSx f with
-    | some b, some f => some (.ifBreak b f)
-    | _, _ => none
-  | .list [.atom "ls", d] => (docOfSx d).map .lineSuffix
-  | _ => none
-
-def c17Step (_ : Unit) (req : List Sx) : Unit × String :=
-  match req with
-  | [.atom "print", w, d] =>
-    match w.asNat, docOfSx d with
-    | some w, some d => ((), "s:" ++ charsToHex (print d w))
-    | _, _ => ((), "bad-request")
-  | [.atom "flatten", d] =>
-    match docOfSx d with
-    | some d => ((), "s:" ++ charsToHex (flatten d))
-    | none => ((), "bad-request")
-  | [.atom "flatwidth", m, d] =>
-    match m.asNat, docOfSx d with
-    | some m, some d =>
-      match flatWidth d m with
-      | some n => ((), s!"some {n}")
-      | none => ((), "none")
-    | _, _ => ((), "bad-request")
-  | [.atom "forcesbreak", d] =>
-    match docOfSx d with
-    | some d => ((), if forcesBreak d then "true" else "false")
-    | none => ((), "bad-request")
-  | _ => ((), "bad-request")
-
-def main : IO Unit := sxLoop c17Step ()
+def main : IO Unit := sxLoop (fun (_ : Unit) req => ((), textStep req)) ()
